@@ -19,7 +19,9 @@ import time
 VERIF = os.path.dirname(os.path.dirname(os.path.abspath(__file__)))
 SPEC = os.path.join(VERIF, "spec")
 OUT = os.path.join(VERIF, "out")
-EVID = os.path.join(VERIF, "evidence")
+# evidence of the registered commands goes to /verif/evidence; runs against a scratch copy of the sources (SKMATTER_SRC:
+# mutation testing of the checks themselves) must not overwrite it
+EVID = os.path.join(VERIF, "evidence") if not os.environ.get("SKMATTER_SRC") else os.path.join(VERIF, "out", "evidence-scratch")
 JAR = "/opt/veriftools/tla/tla2tools.jar:/opt/veriftools/tla/CommunityModules-deps.jar"
 NCPU = os.cpu_count() or 4
 
